@@ -719,7 +719,15 @@ EXC_CLASS = {'ParserError': 'parser', 'EmptyDataError': 'parser', 'ValueError': 
 
 
 def exc_class(e):
-    return 'err:' + EXC_CLASS.get(type(e).__name__, type(e).__name__)
+    name = type(e).__name__
+    if name in EXC_CLASS:
+        return 'err:' + EXC_CLASS[name]
+    # subclasses (numpy's UFuncTypeError is a TypeError, pandas' errors are ValueErrors, ...)
+    for base, cls in ((KeyError, 'key'), (IndexError, 'index'), (AssertionError, 'assert'), (AttributeError, 'attr'),
+                      (TypeError, 'type'), (ValueError, 'value')):
+        if isinstance(e, base):
+            return 'err:' + cls
+    return 'err:' + name
 
 
 # ---- wire format -----------------------------------------------------------------------
